@@ -10,9 +10,10 @@ import Uquic.Proofs.QtpBasic
 import Uquic.Proofs.QtpWire
 import Uquic.Proofs.QtpShuffle
 import Uquic.Proofs.QtpPopulate
+import Uquic.Proofs.QtpFrameKinds
 
 namespace Uquic.Props.C11
-open Uquic.Model.QTP Uquic.Spec.QtpMon Uquic.Proofs.Qtp Uquic.Gen.UQuic
+open Uquic.Model.QTP Uquic.Model.FrameKinds Uquic.Spec.QtpMon Uquic.Proofs.Qtp Uquic.Gen.UQuic
 
 /-! ## GREASE identifiers -/
 
@@ -201,5 +202,35 @@ theorem every_permutation_reachable {α : Type} (l q : List α) (h : q.Perm l) :
 
 example : shuffleWith [1, 0, 1] [10, 20, 30, 40] = [30, 40, 10, 20] := by decide
 example : validDraws 4 [1, 0, 1] := by unfold validDraws; decide
+
+/-! ## The frame-type set of the flight
+
+The reference fingerprint also hashes the *set* of frame types of the Initial packets; per-dial randomisation
+reaches it only through the number of PING frames a `QUICRandomFrames` builder draws. -/
+
+/-- full statement: for every built-in spec with a random frame builder the frame-type set is the same on
+every dial. It is FALSE on the tree this was written against (Chrome_115: MinPING 0, MaxPING 10; listed
+finding `frameset_without_ping`), so only the characterisation below is proved. -/
+def frame_kinds_stable_full : Prop := ∀ b ∈ randomFramePing, pingStable b.2.1 b.2.2
+
+/-- the PING membership of the frame-type set is draw-independent exactly when the bounds exclude the zero
+draw or force it -/
+theorem frame_kinds_stable_partial (mn mx : Nat) : pingStable mn mx ↔ (1 ≤ mn ∨ mx ≤ 1) :=
+  pingStable_iff mn mx
+
+/-- so the full statement is decided by the regenerated bounds (the oracle evaluates this) -/
+theorem frame_kinds_stable_full_iff :
+    frame_kinds_stable_full ↔ (randomFramePing.all fun b => pingStableB b.2.1 b.2.2) = true := by
+  unfold frame_kinds_stable_full
+  simp only [List.all_eq_true, pingStableB, Bool.or_eq_true, decide_eq_true_eq]
+  constructor
+  · intro h b hb; exact (pingStable_iff _ _).mp (h b hb)
+  · intro h b hb; exact (pingStable_iff _ _).mpr (h b hb)
+
+/-- the negation witness, with Chrome_115's bounds as they were found: zero and one PING are both drawn -/
+theorem frame_kinds_unstable_witness : ¬ pingStable 0 10 := by
+  rw [pingStable_iff]; omega
+
+example : pingStable 1 4 := (pingStable_iff 1 4).mpr (Or.inl (Nat.le_refl 1))
 
 end Uquic.Props.C11
